@@ -23,3 +23,20 @@ fn rolled_back_index_entry_is_gone_after_vacuum() {
     assert!(db.execute("INSERT INTO codes VALUES (5, 200)").is_err(), "duplicate accepted after VACUUM");
     assert!(db.execute("INSERT INTO codes VALUES (5, 100)").is_err(), "duplicate of an old key accepted after VACUUM");
 }
+
+#[test]
+fn vacuum_reclaims_catalog_rows_of_a_rolled_back_create_even_without_live_tables() {
+    let dir = tempfile::TempDir::new().unwrap();
+    let db = Database::create(dir.path().join("t.db"), DBConfig::default()).unwrap();
+    {
+        let mut s = db.session().unwrap();
+        s.execute("CREATE TABLE ghost (id BIGINT, v INT)").unwrap();
+        s.abort_transaction().unwrap();
+    }
+    // something commits afterwards, and no live user table exists when VACUUM runs
+    db.execute("CREATE TABLE tmp (id BIGINT)").unwrap();
+    db.execute("DROP TABLE tmp").unwrap();
+    db.vacuum().unwrap();
+    assert!(db.execute("SELECT * FROM ghost").is_err(), "table created by a rolled-back transaction exists after VACUUM");
+    assert!(db.execute("CREATE TABLE ghost (id BIGINT, name TEXT)").is_ok(), "name of a rolled-back CREATE TABLE is taken after VACUUM");
+}
